@@ -77,20 +77,28 @@ var c14Kinds = []vkind{
 	}},
 	{"int-min", func(r *core.Rng) string { return "(-9223372036854775807 - 1)" }},
 	{"bool-nil", func(r *core.Rng) string { return core.Pick(r, []string{"true", "false", "nil"}) }},
-	{"float-fraction", func(r *core.Rng) string { return core.Pick(r, []string{"0.5", "-2.75", "3.141592653589793", "0.1", "1e-7", "123456.789"}) }},
-	{"float-integral", func(r *core.Rng) string { return core.Pick(r, []string{"3.0", "-7.0", "100.0", "0.0", "1e6", "4503599627370496.0"}) }},
+	{"float-fraction", func(r *core.Rng) string {
+		return core.Pick(r, []string{"0.5", "-2.75", "3.141592653589793", "0.1", "1e-7", "123456.789"})
+	}},
+	{"float-integral", func(r *core.Rng) string {
+		return core.Pick(r, []string{"3.0", "-7.0", "100.0", "0.0", "1e6", "4503599627370496.0"})
+	}},
 	{"float-negzero", func(r *core.Rng) string { return "-0.0" }},
 	// integral floats at or above 2^63: written as digits that overflow an integer literal and must read back as that float
 	{"float-integral-beyond-int64", func(r *core.Rng) string {
 		return core.Pick(r, []string{"1e19", "9223372036854775808.0", "-1e19", "1.5e19", "18446744073709551615.0", "1.2e19"})
 	}},
-	{"float-huge", func(r *core.Rng) string { return core.Pick(r, []string{"1e21", "1.7976931348623157e308", "-1e300", "1e100"}) }},
+	{"float-huge", func(r *core.Rng) string {
+		return core.Pick(r, []string{"1e21", "1.7976931348623157e308", "-1e300", "1e100"})
+	}},
 	{"float-subnormal", func(r *core.Rng) string { return core.Pick(r, []string{"5e-324", "2.2250738585072014e-308", "1e-310"}) }},
 	{"float-inf-nan", func(r *core.Rng) string { return core.Pick(r, []string{"Inf", "-Inf", "NaN"}) }},
 	{"string-plain", func(r *core.Rng) string {
 		return quoteGrol(core.Pick(r, []string{"", "hello", "two words", "with 'single'", "a\"quote", "back\\slash", "tab\tnl\ncr\r", "été ☃ 😀", "// not a comment", "/* nor this */", "${x}"}))
 	}},
-	{"string-ctrl-abfv", func(r *core.Rng) string { return quoteGrol("x" + string([]byte{byte(core.Pick(r, []int{7, 8, 11, 12}))}) + "y") }},
+	{"string-ctrl-abfv", func(r *core.Rng) string {
+		return quoteGrol("x" + string([]byte{byte(core.Pick(r, []int{7, 8, 11, 12}))}) + "y")
+	}},
 	{"string-ctrl-other", func(r *core.Rng) string {
 		return quoteGrol("x" + string([]byte{byte(core.Pick(r, []int{0, 1, 2, 14, 27, 31, 127}))}) + "y")
 	}},
@@ -135,7 +143,9 @@ var c14Kinds = []vkind{
 		}
 		return "{" + strings.Join(parts, ", ") + "}"
 	}},
-	{"long-value", func(r *core.Rng) string { return "\"" + strings.Repeat("L", core.Pick(r, []int{9, 11, 99, 101, 3999, 4001})) + "\"" }},
+	{"long-value", func(r *core.Rng) string {
+		return "\"" + strings.Repeat("L", core.Pick(r, []int{9, 11, 99, 101, 3999, 4001})) + "\""
+	}},
 }
 
 func (c14) Generate(r *core.Rng, run int, tier string) *core.History {
@@ -182,12 +192,14 @@ func (c14) Generate(r *core.Rng, run int, tier string) *core.History {
 		}
 		return h
 	}
-	if run == 1 {
+	if run == 1 || run == 6 || run == 7 {
+		// one binding longer than the line buffers a scanner may default to (64 KiB, 1 MiB, 2 MiB), unlimited MaxValueLen
+		size := map[int]int{1: 70000, 6: 1<<20 + 77, 7: 2500000}[run]
 		h.Strs["probe"] = "line-longer-than-64KiB"
 		h.Cfg["maxvaluelen"] = 0
 		h.Events = []core.Event{
 			{Ev: "bind", Name: "v_a", Text: "v_a = 1", Key: "int"},
-			{Ev: "bind", Name: "v_m", Text: "v_m = \"x\" * 70000", Key: "string-70000"},
+			{Ev: "bind", Name: "v_m", Text: fmt.Sprintf("v_m = \"x\" * %d", size), Key: fmt.Sprintf("string-%d", size)},
 			{Ev: "bind", Name: "v_z", Text: "v_z = 2", Key: "int"},
 			{Ev: "save", Key: "autosave"}, {Ev: "restart"}, {Ev: "load", Key: "autoload"},
 		}
